@@ -566,6 +566,12 @@ def run(ctx, br):
                           "hazard": hz})
     n_good = len(progs)
     progs += [mutate_program(rng, rng.choice(progs[:n_prog])) for _ in range(max(4, n_prog // 2))]
+    # validation of scope prefixes (validateScopeTypes): a prefix naming a variable twice is rejected since the
+    # repair of C11-K12; replayed by the judge on Model/ParserFiles.v validate_scopes like any other program
+    for nm, txt, exp in ((b"dupvar.frugal", b"struct E {}\nscope Sc prefix a.{zone}.{zone} { op: E }\n", "reject"),
+                         (b"dupvar2.frugal", b"struct E {}\nscope Ok prefix {a}.{b} { op: E }\nscope Sc prefix {u}.x.{v}.{u} { op: E }\n", "reject"),
+                         (b"twovars.frugal", b"struct E {}\nscope Sc prefix a.{zone}.{user} { op: E }\n", "accept")):
+        progs.append({"files": {nm: txt}, "root": nm, "models": {}, "mutated": True, "expect": exp})
     preqs = []
     for i, p in enumerate(progs):
         preqs.append({"op": "files", "dir": os.path.join(ctx.rundir, "prog", str(i)),
@@ -581,6 +587,10 @@ def run(ctx, br):
             why = None
             if r.get("code", 0) >= 100 and not any(b"typedef list Bare9" in t for t in p["files"].values()):
                 why = "ParseFrugal crashed or hung: %s" % (r.get("panic") or r.get("msg"))
+            elif p.get("expect") == "reject" and r.get("code") == 0:
+                why = "a scope prefix that names a variable twice was accepted"
+            elif p.get("expect") == "accept" and r.get("code") != 0:
+                why = "a scope prefix with distinct variables was rejected: %s" % r.get("msg")
         else:
             why = oracle_program(p, r)
         if why:
